@@ -9,7 +9,8 @@ import H3.Gen.HuffEnc
 
     Bytes are `Nat`s (`< 256` for well-formed input).  `u8`/`u16` truncations are written as
     `% 256` / `% 65536`; `u32` positions are `Nat`s.  That they do not wrap is a theorem, not an
-    assumption: the section "machine arithmetic made explicit" below repeats the decoder with every
+    assumption (decoder: below; encoder: the last section, `hencodeC`, with a bound on the coding length that
+    the theorems about the encoder carry as a hypothesis — site D-15e): the section "machine arithmetic made explicit" below repeats the decoder with every
     `u32` / `u8` / `u16` operation and every indexing checked (`hdecodeC`, `none` = an operation
     overflows), `C15_huffman_positions_fit` proves that for inputs with `8·len + 8 < 2^32` nothing
     overflows and the answers are those of the unchecked functions, and `prefix_string::decode`
@@ -19,8 +20,11 @@ import H3.Gen.HuffEnc
     D-15.  `check_eof` is reached when the `lookup` bits of the *current level* are not there and
     judges only the bits from that level's start to the end of the input.  Bits of the
     unfinished symbol that earlier levels have consumed are never looked at again.  The model
-    keeps this behaviour; `hdecodeX` additionally reports (ghost output, not in the code) whether
-    the bits after the last complete symbol violate RFC 7541 §5.2 (`lax = true`). -/
+    keeps this behaviour; `hdecodeX` additionally reports (ghost output, not in the code) through which
+    ending it accepted: `laxAt`, computed from the window `check_eof` was called with — more than 7 bits
+    consumed-or-judged behind the last complete symbol, or a zero among the consumed ones (`lax = true`);
+    that this is "violates RFC 7541 §5.2" is a theorem (`laxAt_eq`), and the flagged set is enumerated exactly
+    (`C15_huffman_lax_set_exact`). -/
 namespace H3.Huffman
 open H3.Bits
 open H3.Gen.HuffDec (Level Entry)
@@ -113,13 +117,27 @@ def entryGo : Entry → BitWindow → List Nat → BitWindow × Step
 end
 
 /-- RFC 7541 §5.2 on what follows the last complete symbol (which starts at bit `pos`): fewer
-    than eight bits, all ones.  Used for the ghost output only. -/
+    than eight bits, all ones.  Not used by the model: the reference `laxAt` is proved equal to. -/
 def padOK (input : List Nat) (pos : Nat) : Bool :=
   let tail := (bitsOf input).drop pos
   decide (tail.length ≤ 7) && tail.all (· == true)
 
+/-- The D-15 flag, from the branch of `check_eof` that answered `Ok(None)`.  `symStart` = the bit at which the
+    unfinished symbol starts (the end of the last complete one), `w'` = the window `check_eof` was called with (the
+    window of the level whose `lookup` bits are not there).  `check_eof` judges the bits from that level's start
+    to the end of the input only — none in the arm `Ordering::Greater`, the rest of the last byte in the arm
+    `Ordering::Equal`; the bits between `symStart` and the level's start have been consumed by the levels above and
+    are never looked at again.  Flag: consumed + judged bits are more than 7, or a consumed bit is zero.
+    On every accepting run this is "the bits behind the last complete symbol are not a valid RFC 7541 §5.2
+    padding" (`padOK`; `H3.Huffman.laxAt_eq`), and the set of flagged inputs is enumerated exactly by
+    `C15_huffman_lax_set_exact`. -/
+def laxAt (input : List Nat) (symStart : Nat) (w' : BitWindow) : Bool :=
+  let levelStart := 8 * w'.byte + w'.bit
+  let consumed := ((bitsOf input).drop symStart).take (levelStart - symStart)
+  decide (7 < (levelStart - symStart) + (8 * input.length - levelStart)) || consumed.any (· == false)
+
 /-- The loop `for byte in payload.hpack_decode() { decoded.push(byte?) }` around
-    `DecodeIter::next`.  Second component: D-15 ghost flag (`true` = the accepted ending is not
+    `DecodeIter::next`.  Second component: D-15 flag (`laxAt`: `true` = the accepted ending is not
     a valid padding). -/
 def decodeAll (root : Level) : Nat → BitWindow → List Nat → Except Err (List Nat × Bool)
   | 0, _, _ => .error .fuel
@@ -129,7 +147,7 @@ def decodeAll (root : Level) : Nat → BitWindow → List Nat → Except Err (Li
       match decodeAll root fuel w' input with
       | .ok (r, lax) => .ok (s :: r, lax)
       | .error e => .error e
-    | (_, .done) => .ok ([], !padOK input w.endPos)
+    | (w', .done) => .ok ([], laxAt input w.endPos w')
     | (_, .err e) => .error e
 
 /-- `Vec<u8>::hpack_decode()` collected, with the ghost flag. -/
@@ -282,7 +300,7 @@ def decodeAllC (root : Level) : Nat → BitWindow → List Nat → Option (Excep
       | none => none
       | some (.ok (r, lax)) => some (.ok (s :: r, lax))
       | some (.error e) => some (.error e)
-    | some (_, .done) => some (.ok ([], !padOK input w.endPos))
+    | some (w', .done) => some (.ok ([], laxAt input w.endPos w'))
     | some (_, .err e) => some (.error e)
 
 /-- `Vec<u8>::hpack_decode()` collected, every machine operation checked: `none` = one of them overflows
@@ -300,7 +318,8 @@ structure Encoder where
   buffer : List Nat
 deriving Repr, DecidableEq
 
-/-- `HuffmanEncoder::ensure_free_space` (the capacity reservation has no visible effect). -/
+/-- `HuffmanEncoder::ensure_free_space` with positions in `Nat` (the capacity reservation has no visible effect
+    as long as `7 * end_range.byte` fits `u32`: `ensureFreeSpaceC` below, site D-15e). -/
 def ensureFreeSpace (e : Encoder) (bitCount : Nat) : Encoder :=
   let endRange := (e.pos.forwards bitCount).forwards 0
   if e.buffer.length > endRange.byte then e
@@ -355,12 +374,154 @@ def putAll : List Nat → Encoder → Option Encoder
     | none => none
     | some e' => putAll cs e'
 
-/-- `Vec<u8>::hpack_encode()`; `none` = panic (never for byte strings: `C15_huffman_roundtrip`).
-    The Rust `Result` is always `Ok`. -/
+/-- `Vec<u8>::hpack_encode()` with positions in `Nat`; `none` = panic (never for byte strings).  This is the
+    code for codings whose positions fit `u32` (`hencodeC` below, `C15_huffman_encoder_positions_fit`: coding
+    length `L` with `7·L < 2^32`); beyond that the code overflows (D-15e) or, repaired, answers `Err`. -/
 def hencode? (s : List Nat) : Option (List Nat) :=
   (putAll s ⟨⟨0, 0, 0⟩, []⟩).map (·.buffer)
 
 /-- Total version for callers that have established that `s` is a byte string. -/
 def hencode (s : List Nat) : List Nat := (hencode? s).getD []
+
+/-! ### encode.rs / bitwin.rs once more, machine arithmetic made explicit
+
+    The encoder with every operation of the Rust code that can go wrong written out, as for the decoder above:
+    `+` / `*` on `u32` (`BitWindow::forwards`, `7 * end_range.byte`, `pos.bit + pos.count`, `pos.byte + 1`) answer
+    `none` when the result does not fit 32 bits.  `none` is a panic in a build with overflow checks; in a build
+    without, `7 * end_range.byte` wraps harmlessly (a smaller reservation) and a wrapped `byte` writes at the
+    wrong place or indexes out of range.  The reservation `self.buffer.reserve((7 * end_range.byte) / 4)` is
+    computed only when `self.buffer.capacity() <= end_range.byte`: the capacity of the `Vec` is part of the checked
+    state, and what `Vec` does when it has to grow is a PARAMETER (`grow cap required`, the new capacity; `Vec`
+    promises `required ≤ grow cap required`, nothing more) — the theorems hold for every `grow`.
+
+    D-15e (site of the send side).  The functions above (`hencode?`, positions in `Nat`) are the code only as
+    long as the positions fit: `C15_huffman_encoder_positions_fit`.  `g` = the shape of `put` in the tree under
+    check (`H3.Gen.HuffEnc.hugeCodingRefused`): `false` = as it was (overflows), `true` = the repaired one
+    (`put` answers `Err(Error { .. })` once `buffer_pos.byte > u32::MAX - 8`, the reservation is computed in
+    `usize`). -/
+
+structure EncoderC where
+  pos : BitWindow
+  buffer : List Nat
+  /-- `self.buffer.capacity()` -/
+  cap : Nat
+deriving Repr, DecidableEq
+
+/-- forget the capacity -/
+def EncoderC.toE (e : EncoderC) : Encoder := ⟨e.pos, e.buffer⟩
+
+/-- `Vec::reserve(additional)`: the capacity afterwards -/
+def vecReserve (grow : Nat → Nat → Nat) (cap len additional : Nat) : Nat :=
+  if cap - len < additional then grow cap (len + additional) else cap
+
+/-- `k` times `Vec::push`: the capacity afterwards -/
+def vecPushes (grow : Nat → Nat → Nat) : Nat → Nat → Nat → Nat
+  | 0, cap, _ => cap
+  | k+1, cap, len => vecPushes grow k (if len = cap then grow cap (len + 1) else cap) (len + 1)
+
+/-- the capacity growth of the standard library at the time of writing (`RawVec::grow_amortized` for `u8`:
+    `max(8, max(2·cap, required))`); used by examples and by the driver's prediction of the boundary probes
+    only, never by a theorem -/
+def stdGrow (cap required : Nat) : Nat := max 8 (max (2 * cap) required)
+
+/-- `if self.buffer.capacity() <= end_range.byte as usize { self.buffer.reserve(((7 * end_range.byte) / 4) as
+    usize); }`: the capacity afterwards; `none` = `7 * end_range.byte` does not fit `u32` (old shape; the
+    repaired shape multiplies in `usize`, saturating) -/
+def reserveC (g : Bool) (grow : Nat → Nat → Nat) (cap len byte : Nat) : Option Nat :=
+  if cap ≤ byte then
+    if g then some (vecReserve grow cap len (7 * byte / 4))
+    else
+      match mul32 7 byte with
+      | none => none
+      | some m => some (vecReserve grow cap len (m / 4))
+  else some cap
+
+/-- `HuffmanEncoder::ensure_free_space` -/
+def ensureFreeSpaceC (g : Bool) (grow : Nat → Nat → Nat) (e : EncoderC) (bitCount : Nat) : Option EncoderC :=
+  match e.pos.forwardsC bitCount with                   -- end_range.forwards(bit_count)
+  | none => none
+  | some w1 =>
+    match w1.forwardsC 0 with                           -- end_range.forwards(0)
+    | none => none
+    | some endRange =>
+      if e.buffer.length > endRange.byte then some e
+      else
+        match reserveC g grow e.cap e.buffer.length endRange.byte with
+        | none => none
+        | some cap =>
+          -- `end_range.byte as usize - self.buffer.len()` cannot go below zero behind the guard
+          let forward := endRange.byte - e.buffer.length + (if endRange.bit > 0 then 1 else 0)
+          some { pos := e.pos, buffer := e.buffer ++ List.replicate forward 255,
+                 cap := vecPushes grow forward cap e.buffer.length }
+
+/-- `write_bits`.  Behind the three `debug_assert!`s (`bit < 8`, `1 ≤ count ≤ 8`) every `8 - …`, `count - split`,
+    every shift amount (`< 8`) and every index into `PAD_LEFT` / `PAD_RIGHT` (`≤ 8`) of the body is in range
+    (`H3.Huffman.writeBits_ops_in_range`); what remains are `pos.bit + pos.count` and, in the two-byte arm,
+    `pos.byte + 1` on `u32`; the slice indexings are checked in `writeBits` already. -/
+def writeBitsC (out : List Nat) (pos : BitWindow) (value : Nat) : Option (List Nat) :=
+  if ¬ (pos.bit < 8 ∧ pos.count ≤ 8 ∧ pos.count > 0) then none
+  else
+    match add32 pos.bit pos.count with                  -- (pos.bit + pos.count) <= 8
+    | none => none
+    | some e =>
+      if e ≤ 8 then writeBits out pos value
+      else
+        match add32 pos.byte 1 with                     -- out[(pos.byte + 1) as usize]
+        | none => none
+        | some _ => writeBits out pos value
+
+/-- the loop of `put` -/
+def putPartsC : List Nat → Nat → EncoderC → Option EncoderC
+  | [], _, e => some e
+  | part :: ps, rest, e =>
+    match e.pos.forwardsC (if rest < 8 then rest else 8) with
+    | none => none
+    | some pos =>
+      match subU rest pos.count with                    -- rest -= self.buffer_pos.count
+      | none => none
+      | some rest =>
+        match writeBitsC e.buffer pos part with
+        | none => none
+        | some buf => putPartsC ps rest { e with pos := pos, buffer := buf }
+
+/-- the repaired `put` refuses (`Err(Error { .. })`) once the next symbol might leave the `u32` positions -/
+def putRefuses (g : Bool) (e : EncoderC) : Bool := g && decide (e.pos.byte > 2 ^ 32 - 1 - 8)
+
+/-- `HuffmanEncoder::put`; outer `none` = panic / overflow, `some none` = `Err` -/
+def putC (g : Bool) (grow : Nat → Nat → Nat) (e : EncoderC) (code : Nat) : Option (Option EncoderC) :=
+  match H3.Gen.HuffEnc.raw[code]? with
+  | none => none
+  | some (bitCount, buffer) =>
+    if putRefuses g e = true then some none
+    else
+      match ensureFreeSpaceC g grow e bitCount with
+      | none => none
+      | some e1 => (putPartsC buffer bitCount e1).map some
+
+/-- `Result<Vec<u8>, Error>` of `hpack_encode` -/
+inductive EncOut where
+  | ok (bytes : List Nat)
+  /-- `Err(Error { .. })`: the coding does not fit the `u32` positions (repaired shape only) -/
+  | tooLong
+deriving Repr, DecidableEq
+
+def putAllC (g : Bool) (grow : Nat → Nat → Nat) : List Nat → EncoderC → Option EncOut
+  | [], e => some (.ok e.buffer)
+  | c :: cs, e =>
+    match putC g grow e c with
+    | none => none
+    | some none => some .tooLong
+    | some (some e') => putAllC g grow cs e'
+
+/-- `Vec<u8>::hpack_encode()`, every machine operation checked: `none` = one of them overflows (a panic in a
+    build with overflow checks).  `C15_huffman_encoder_positions_fit`: `some (.ok (hencode s))` for every byte
+    string whose coding has `L` bytes with `7·L < 2^32`, whatever `g` and `grow`; `none` for the old shape from
+    `2^32` bytes on (and from `7·byte ≥ 2^32` on whenever the reservation is computed). -/
+def hencodeC (g : Bool) (grow : Nat → Nat → Nat) (s : List Nat) : Option EncOut :=
+  putAllC g grow s ⟨⟨0, 0, 0⟩, [], 0⟩
+
+/-- the encoder of the tree under check -/
+def hencodeT (grow : Nat → Nat → Nat) (s : List Nat) : Option EncOut :=
+  hencodeC H3.Gen.HuffEnc.hugeCodingRefused grow s
 
 end H3.Huffman
